@@ -2,7 +2,9 @@ package engines
 
 import (
 	"context"
+
 	"fmt"
+	"google.golang.org/grpc"
 	"math/big"
 	"reflect"
 	"strings"
@@ -167,9 +169,12 @@ func TestEngineIndexer(t *testing.T) {
 	kv := indexer.NewKVIndexer(failingDB{mem, &failNext}, log.NewNopLogger(), clientCtx)
 	serverCtx := server.NewDefaultContext()
 	backend := rpcbackend.NewBackend(serverCtx, serverCtx.Logger, clientCtx, kv)
-	{ // the gRPC query client of the suite (in-process), as the suite itself wires it
+	traceRec := &traceRecorder{QueryClient: c.s.QueryClientsAt(0).Rpc.QueryClient}
+	{ // the gRPC query client of the suite (in-process), as the suite itself wires it; trace requests are recorded on the way
+		qc := *c.s.QueryClientsAt(0).Rpc
+		qc.QueryClient = traceRec
 		fld := reflect.Indirect(reflect.ValueOf(backend).Elem()).FieldByName("queryClient")
-		reflect.NewAt(fld.Type(), unsafe.Pointer(fld.UnsafeAddr())).Elem().Set(reflect.ValueOf(c.s.QueryClientsAt(0).Rpc))
+		reflect.NewAt(fld.Type(), unsafe.Pointer(fld.UnsafeAddr())).Elem().Set(reflect.ValueOf(&qc))
 	}
 
 	hashID := map[common.Hash]int{}
@@ -306,6 +311,49 @@ func TestEngineIndexer(t *testing.T) {
 		p.Emit(fmt.Sprintf("idx h=%d txs=%s q=%s qi=%s", h, strings.Join(recs, ","), strings.Join(qs, ","), strings.Join(qis, ",")),
 			fmt.Sprintf("hash=%s index=%s", strings.Join(byH, ","), strings.Join(byI, ",")))
 		p.Count(fmt.Sprintf("block:eth=%d", len(eths)))
+
+		// ---- debug_traceTransaction: the transactions replayed in front of the traced one (C08) ---------------------------
+		// whatever the trace answers, it must be computed on the state the transaction really ran on: every Ethereum
+		// transaction that executed before it in the block is replayed first, in block order, and nothing from its own
+		// position on
+		for k, e := range eths {
+			if !e.obs.hasRcpt || k == 0 || k%2 == 1 {
+				continue
+			}
+			traceRec.last = nil
+			_, _ = backend.TraceTransaction(e.hash, nil)
+			if traceRec.last == nil {
+				continue
+			}
+			p.Count("trace:requests")
+			var got []common.Hash
+			for _, m := range traceRec.last.Predecessors {
+				got = append(got, m.AsTransaction().Hash())
+			}
+			gi := 0
+			for _, b4 := range eths[:k] {
+				if !b4.obs.hasRcpt {
+					continue
+				}
+				for gi < len(got) && got[gi] != b4.hash {
+					gi++
+				}
+				if gi == len(got) {
+					p.Oracle("C08-trace-predecessors", "block %d: tracing the Ethereum transaction at block position %d does not replay the executed Ethereum transaction at position %d first (%d predecessors handed to the trace query)", h, e.pos, b4.pos, len(got))
+					break
+				}
+			}
+			for _, later := range eths[k:] {
+				for _, g := range got {
+					if g == later.hash {
+						p.Oracle("C08-trace-predecessors", "block %d: tracing the transaction at block position %d replays the transaction at position %d, which is not before it", h, e.pos, later.pos)
+					}
+				}
+			}
+			if traceRec.last.Msg == nil || traceRec.last.Msg.AsTransaction().Hash() != e.hash {
+				p.Oracle("C08-trace-predecessors", "block %d: the trace query for position %d carries another transaction", h, e.pos)
+			}
+		}
 
 		// ---- JSON-RPC views vs consensus results (oracle) --------------------------------------------------------------------
 		cum := uint64(0)
@@ -573,4 +621,18 @@ func TestEngineIndexerService(t *testing.T) {
 			c.s.Cleanup()
 		}
 	}
+}
+
+// traceRecorder: the EVM query client of the JSON-RPC backend, recording the trace requests it is asked to send
+type traceRecorder struct {
+	evmtypes.QueryClient
+	last *evmtypes.QueryTraceTxRequest
+}
+
+func (t *traceRecorder) TraceTx(ctx context.Context, in *evmtypes.QueryTraceTxRequest, opts ...grpc.CallOption) (resp *evmtypes.QueryTraceTxResponse, err error) {
+	// only the request is judged (which transactions the backend asks to be replayed first); it is not executed: the suite's
+	// in-process query helper runs handlers on the live, unbranched context, so that a trace would leave its transient
+	// counters in the state of the next block (a node serves queries on a branch of a committed version)
+	t.last = in
+	return nil, fmt.Errorf("trace request recorded, not executed")
 }
